@@ -298,6 +298,28 @@ def read_only(chk: Check) -> None:
     rec = [(fs, v_) for fs, v_ in virt if isinstance(v_, ast.Call) and last_name(v_) == 'pre_process']
     plain = [(fs, v_) for fs, v_ in virt if not (isinstance(v_, ast.Call) and last_name(v_) == 'pre_process')]
     ok = len(rec) == 1 and all(is_ns(fs) for fs, _ in rec) and all(not is_ns(fs) for fs, _ in plain)
+    # pre_process FILLS the mapping it is given: the spec's own default object must never be that mapping
+    from ..decisions import paths_under as _pu, value_on_path as _vop
+    recs = [m for m in cfg.nodes if any(isinstance(c, ast.Call) and last_name(c) == 'pre_process' for c in (walk_shallow(m.expr()) if m.expr() is not None else []))]
+    leaked = []
+    try:
+        for path in _pu(ff, {}):
+            for i, m in enumerate(path):
+                if m in recs:
+                    call = [c for c in walk_shallow(m.expr()) if isinstance(c, ast.Call) and last_name(c) == 'pre_process'][0]
+                    arg = _vop(path, i, call.args[0]) if call.args else None
+                    if arg is None:
+                        continue
+                    raw = [x for x in ast.walk(arg) if isinstance(x, ast.Attribute) and x.attr in ('default', '_default')]
+                    copied = isinstance(arg, ast.Call) and (norm(arg.func) in ('dict', 'copy.copy', 'copy.deepcopy') or last_name(arg) in ('copy', 'deepcopy'))
+                    called = isinstance(arg, ast.Call) and any(arg.func is r or any(r is y for y in ast.walk(arg.func)) for r in raw)   # default() -- a fresh value
+                    not_mapping = any(t.kind == 'test' and 'Mapping' in norm(t.ast.test) and path[j + 1] in [s_ for s_, l_ in t.succ if l_ == 'false'] for j, t in enumerate(path[:i]) if j + 1 < len(path))
+                    if raw and not copied and not called and not not_mapping:
+                        leaked.append(norm(arg))
+    except RuntimeError:
+        leaked.append('<too many paths>')
+    chk.ob('PROV-raw-inputs-untouched', pp, bool(recs) and not leaked, 'the mapping handed to the recursive pre_process (which fills it in) is never the declared default object of the spec'
+           + (f' (handed over as it is on some path: {sorted(set(leaked))[:2]})' if leaked else ''), kind='default-not-filled-in-place')
     chk.ob('OWN-frozen', pp, ok, 'the value of every namespace port is itself pre-processed (frozen at every declared level); plain ports keep their value', kind='nested-frozen')
 
 
